@@ -5,7 +5,7 @@
    column + 1, idx holds the row of each stored entry. *)
 From Coq Require Import List Arith ZArith Bool Lia.
 From CTM Require Import Base.Sx Model.Sparse Model.Transpose
-  Proofs.SparseP Proofs.TransposeP Proofs.TransposeFillP Proofs.TransposeSpecP Proofs.SparseReshapeP.
+  Proofs.SparseP Proofs.TransposeP Proofs.TransposeFillP Proofs.TransposeSpecP Proofs.TransposeParP Proofs.SparseReshapeP.
 Import ListNotations.
 
 (* ---- count pass (_calculate_csr_indptr): for every load chunk size >= 1 the pointer
@@ -101,6 +101,21 @@ Theorem c13_transpose_no_value_rejects : forall m indices_max sl E L Lc,
 Proof. exact transpose_no_value_rejects. Qed.
 Print Assumptions c13_transpose_no_value_rejects.
 
+(* ---- _transpose_sparse_matrix_on_disk_v2 (n_processors workers, each transposing a
+   slice of ceil(indices_max / n_processors) rows, pieces joined in range order with
+   pointer offsets): whenever it returns, it returns exactly what the serial function
+   computes on the whole range (c13_transpose_exact: out = transpose_spec ... None, so
+   every clause proved there holds for it), for every worker count and every budget.
+   When it does not return, that is one of the recorded findings F2w / F4 / F4z / F4m
+   (an empty slice with a value array; chunk shapes of the joined datasets). *)
+Theorem c13_parallel_concat : forall m use_data indices_max n_proc E L Lc out,
+  1 <= L -> 1 <= Lc -> (use_data = true -> length (dat m) = length (idx m)) ->
+  Forall (fun r => r < indices_max) (idx m) ->
+  transpose_v2 m use_data indices_max n_proc E L Lc = Ok out ->
+  out = transpose_spec m use_data indices_max None.
+Proof. exact transpose_v2_exact. Qed.
+Print Assumptions c13_parallel_concat.
+
 (* ---- _get_slices_for_copy: in every dimension the hyperslab bounds start at 0, are
    contiguous and non-empty, end at the extent, and cutting along them and gluing gives
    the data back: the hyperslabs tile the dataset exactly once *)
@@ -136,12 +151,10 @@ Proof. exact copy_dense_exact. Qed.
 Print Assumptions c13_copy_layer_dense.
 
 (* NOT YET PROVED (statements kept; the correspondence check covers them by testing):
-   c13_parallel_concat : transpose_v2 m ud imax n_proc E L Lc = Ok out ->
-       out = transpose_spec m ud imax None            (slices + merge_from with offsets)
    c13_shuffle_rows    : wf_csr m nr nc -> Permutation order (seq 0 nr) ->
        exists out, shuffle_rows m order = Ok out /\
        dense_of out nr nc = map (fun r => nth r (dense_of m nr nc) []) order
-   c13_subset_columns  : the same for subset_columns with sorted chosen columns
+   c13_subset_columns  : the same for subset_columns with the sorted chosen columns
    c13_amalgamate      : amalgamate_csr pieces n = Ok out ->
        dense_of out = concatenation of the dense views of the pieces *)
 
@@ -180,4 +193,8 @@ Example c13_example_slice :
   end.
 Proof. vm_compute. reflexivity. Qed.
 Example c13_example_slices : slices_for_copy [5; 3] 2 = [[(0, 2); (2, 4); (4, 5)]; [(0, 2); (2, 3)]].
+Proof. vm_compute. reflexivity. Qed.
+Example c13_example_parallel :
+  transpose_v2 c13_ex true 3 2 2 2 1 =
+  Ok {| ptr := [0; 2; 2; 5]; idx := [0; 3; 0; 2; 3]; dat := [5; 8; 6; 7; 9]%Z |}.
 Proof. vm_compute. reflexivity. Qed.
